@@ -5,16 +5,16 @@ import WpModel.Lemmas.FloatBounds
 
 namespace Wp.Floats
 
-/-- `avoid_collisions(outer=True)` for a float with a non-empty border box. -/
+/-- `avoid_collisions(outer=True)` for a float (any float: the early return for an empty border box is gone,
+1bc67ce). -/
 theorem avoidCollisions_float (shapes : List Shape) (b : ABox) (cb : CB) (p : Placement)
-    (hf : b.float ≠ .none) (hz : b.bh ≠ 0)
+    (hf : b.float ≠ .none)
     (h : avoidCollisions shapes b cb true = .ok p) :
     ∃ res, avoidLoop (shapes.length + 1) shapes b.marginWidth b.marginHeight cb.cx (cb.cx + cb.w) b.py = some res ∧
       p = ⟨res.l, res.y, res.r - res.l⟩ := by
   unfold avoidCollisions at h
-  have h1 : ¬ ((decide (b.bh = 0) && b.isFloated) = true) := by simp [hz]
   have h2 : b.isFloated = true := by simp [ABox.isFloated, hf]
-  simp only [if_neg h1, if_true] at h
+  simp only [if_true] at h
   split at h
   · simp at h
   · rename_i res hres
@@ -23,15 +23,6 @@ theorem avoidCollisions_float (shapes : List Shape) (b : ABox) (cb : CB) (p : Pl
     simp only [h2, h3, Bool.false_eq_true, if_false, Bool.true_or, Bool.not_true] at h
     simp only [Except.ok.injEq] at h
     exact h.symm
-
-/-- `avoid_collisions` on a float whose border box has height 0: the early return
-`(containing_block.content_box_x(), position_y, containing_block.width)`. -/
-theorem avoidCollisions_zero_float (shapes : List Shape) (b : ABox) (cb : CB) (outer : Bool)
-    (hf : b.float ≠ .none) (hz : b.bh = 0) :
-    avoidCollisions shapes b cb outer = .ok ⟨cb.cx, if outer then b.py else b.py + b.mt, cb.w⟩ := by
-  unfold avoidCollisions
-  have h1 : (decide (b.bh = 0) && b.isFloated) = true := by simp [hz, ABox.isFloated, hf]
-  simp only [if_pos h1]
 
 theorem findFloatPosition_ok (shapes : List Shape) (b : ABox) (cb : CB) (x y : Rat)
     (h : findFloatPosition shapes b cb = .ok (x, y)) :
